@@ -4,6 +4,7 @@ import (
 	"fmt"
 	"go/types"
 	"math/big"
+	"os"
 	"strings"
 
 	"golang.org/x/tools/go/ssa"
@@ -45,7 +46,13 @@ func NewEngine(p *Program, cs *Contracts) *Engine {
 func (e *Engine) note(s string) { e.Notes[s] = true }
 
 func (e *Engine) typeID(t types.Type) int {
-	k := types.TypeString(t, nil)
+	// identical types must get one id: byte and rune are aliases that print differently
+	k := aliasWord.ReplaceAllStringFunc(types.TypeString(t, nil), func(w string) string {
+		if w == "byte" {
+			return "uint8"
+		}
+		return "int32"
+	})
 	if id, ok := e.typeIDs[k]; ok {
 		return id
 	}
@@ -443,7 +450,14 @@ func (c *Ctx) typeFacts(term string, t types.Type, alloc string) string {
 		}
 		return fmt.Sprintf("(or (= %s nil) (and (< (pobj %s) %s) %s))", term, term, alloc, kind)
 	case *types.Slice:
-		f := fmt.Sprintf("(and (<= 0 (soff %s)) (<= 0 (slen_ %s)) (<= (slen_ %s) (scap %s)) (<= (scap %s) 9223372036854775807) (=> (= (sbase %s) nil) (= %s nilslice)) (or (= (sbase %s) nil) (and (not (ismapobj (pobj (sbase %s)))) (not (islocalobj (pobj (sbase %s)))) (=> (= (ppath (sbase %s)) here) (<= (objtype (pobj (sbase %s))) 0))))", term, term, term, term, term, term, term, term, term, term, term, term)
+		// a []T whose base is a whole object refers to an array allocated with element type T
+		// (Go's type safety; unsafe conversions are outside the model): arrays of different element
+		// types are different objects. Encoded as a negative objtype per element type.
+		ot := "(<= (objtype (pobj (sbase " + term + "))) 0)"
+		if c.tid != nil && !hasTypeParam(u.Elem()) && os.Getenv("BFVC_NO_TYPED_ARRAYS") == "" {
+			ot = fmt.Sprintf("(= (objtype (pobj (sbase %s))) (- %d))", term, c.tid(types.NewSlice(u.Elem())))
+		}
+		f := fmt.Sprintf("(and (<= 0 (soff %s)) (<= 0 (slen_ %s)) (<= (slen_ %s) (scap %s)) (<= (scap %s) 9223372036854775807) (=> (= (sbase %s) nil) (= %s nilslice)) (or (= (sbase %s) nil) (and (not (ismapobj (pobj (sbase %s)))) (not (islocalobj (pobj (sbase %s)))) (=> (= (ppath (sbase %s)) here) %s)))", term, term, term, term, term, term, term, term, term, term, term, ot)
 		if alloc != "" {
 			f += fmt.Sprintf(" (or (= (sbase %s) nil) (< (pobj (sbase %s)) %s))", term, term, alloc)
 		}
